@@ -47,9 +47,11 @@ ImportWhy(cs) ==
 BuiltinOK(cs, flags) ==
   cs.name \in Excluded => \/ cs.out \in {"NameError", "replacement"}
                           \/ "compiled-native-builtins" \in flags /\ cs.scope \in {"lambda", "compiled"}
-LogOK(cs) == /\ Len(cs.loggers) = 1
-             /\ cs.loggers[1] \in {LoggerBase \o cs.ctxname, LoggerBase \o cs.ctxname \o "." \o cs.func}
-             /\ ~cs.stdout
+\* where = "global-decl": print under `global print` in a function - NameError (nothing logged) or the replacement
+LogOK(cs) == /\ ~cs.stdout
+             /\ \/ cs.where = "global-decl" /\ Len(cs.loggers) = 0
+                \/ /\ Len(cs.loggers) = 1
+                   /\ cs.loggers[1] \in {LoggerBase \o cs.ctxname, LoggerBase \o cs.ctxname \o "." \o cs.func}
 
 Why(cs) == CASE cs.kind = "import"  -> IF ImportOK(cs, {}) THEN "" ELSE ImportWhy(cs)
              [] cs.kind = "builtin" -> IF BuiltinOK(cs, {}) THEN ""
